@@ -28,6 +28,9 @@ from gvmon.models import C05 as M
 from gvmon.models import dialect as MD
 from gvmon.monitors import contracts
 
+FORCE_NOTICE = r"(frame|strand) field will be merged for features with the same ID"
+WFILTERS = ("error", "ignore", "default")
+
 RULE = ("histories of 1-2 colliding keys with 2-6 arrivals each (plus unique features, parent features and arrivals whose "
         "own id is an earlier '<key>_n'), columns drawn as variants that are equal / differ in forced / differ in other "
         "columns, attribute sets overlapping; strategies error, warning, replace, create_unique, merge x all 64 subsets of "
@@ -49,6 +52,9 @@ RULE = ("histories of 1-2 colliding keys with 2-6 arrivals each (plus unique fea
         "attribute keys and/or of the values - in the same run, a later run or an update() of their own, 1-2 times, over plain "
         "files (nothing else collides), ordinary histories and multi-run histories, with and without value lists that hold a "
         "value more than once (Note=a,a; Dbxref=X1,X2,X1) on the repeated and on other lines, every strategy; "
+        "one history (every strategy, half of them 'warning'; plain, multi-run and repeated-line histories) run three times, while "
+        "the process-wide warning filter (warnings.simplefilter inside catch_warnings) is 'error', 'ignore' and 'default', "
+        "each run judged against the model; "
         "one update() per quick run (thorough: every strategy) made while another sqlite3 connection holds a write "
         "transaction for 6.5-7 s (> the 5 s busy timeout) and then releases it, no key colliding; every stored feature is also read through the live "
         "handle (db[key], str(), region(completely_within=True) and all_features(limit=) at its position); non-trivial = >= 3 arrivals on one key; "
@@ -120,6 +126,17 @@ REQUIRED = ["histories", "arrivals", "stored features compared", "attribute valu
             "merge: a value list of the newcomer holds a repeated value (the union has it once)",
             "merged features: value lists compared (each value once)",
             "unmerged features whose line repeats a value: value set compared (multiplicity not judged)",
+            # process-wide warning filters
+            "one history run under the warning filters 'error' / 'ignore' / 'default' (each judged against the model)",
+            "histories run while the process-wide warning filter is 'error'",
+            "histories run while the process-wide warning filter is 'error': strategy=warning",
+            "histories run while the process-wide warning filter is 'error': strategy=merge",
+            "histories run while the process-wide warning filter is 'default'",
+            "warning filter 'error': strategy 'warning' ignored a later arrival and the import went on",
+            "warning filter 'error': arrivals imported after the ignored one",
+            "warning filter 'error': strategy 'warning' over create_db + update()",
+            "warning filter 'default': strategy 'warning' ignored a later arrival and the import went on",
+            "warning filter 'ignore': strategy 'warning' ignored a later arrival and the import went on",
             # transient lock
             "transient lock: update() calls made while another connection held a write transaction > 5 s",
             "transient-lock cases judged"]
@@ -137,7 +154,9 @@ REQUIRED_CLASSES = (["strategy=" + s for s in M.STRATEGIES] + ["fmt=gff3", "fmt=
                        for s in M.STRATEGIES]
                     + ["input class: stored lines arrive again (verbatim / other key or value order), strategy=" + s for s in M.STRATEGIES]
                     + ["input class: value lists holding a value more than once, strategy=" + s for s in M.STRATEGIES]
-                    + ["repeated lines: fmt=%s path=%s" % (f, p) for f in ("gff3", "gtf") for p in ("create", "create+update")])
+                    + ["repeated lines: fmt=%s path=%s" % (f, p) for f in ("gff3", "gtf") for p in ("create", "create+update")]
+                    + ["warning filter %r: strategy=%s" % (w, s) for w in WFILTERS for s in M.STRATEGIES]
+                    + ["warning filter 'error': fmt=%s path=%s" % (f, p) for f in ("gff3", "gtf") for p in ("create", "create+update")])
 ASSUMPTIONS = [
     "one strategy, one force_merge_fields set and one id_spec per history (create_db and every update alike)",
     "a history in which the fresh '<key>_n' is already the key of another feature, or in which two candidates agree with "
@@ -167,6 +186,9 @@ ASSUMPTIONS = [
     "a feature is what is handed to the importer: its columns are those it has after a transform / after the caller's "
     "edits, whatever they were when the object was constructed; a transform is a pure function of the feature's "
     "(start, end) that leaves an already edited feature alone (so it may be applied more than once)",
+    "the outcome of a strategy does not depend on the process-wide warning filter; the one warning the unchanged tree emits "
+    "itself on these paths - the UserWarning announcing frame / strand in force_merge_fields under 'merge', before "
+    "anything is imported - is left un-escalated under the filter 'error' (message-specific 'ignore' entry)",
     "transient lock: update() may raise sqlite3.OperationalError (then only a retry of the same update on a fresh handle, "
     "after the release, is judged) or return normally; either way the content must be the model's. Only update() is "
     "exercised (create_db makes its own file)",
@@ -295,6 +317,34 @@ def feed(case, bi, b):
 
 
 def execute(ctx, case):
+    """With "wfilter": the whole case (import, comparison, reads through the live handle) runs while the process-wide
+    warning filter is that action (warnings.simplefilter inside catch_warnings); the oracle is the same."""
+    wf = case.get("wfilter")
+    if not wf:
+        return execute_plain(ctx, case)
+    import warnings
+
+    with warnings.catch_warnings():
+        warnings.simplefilter(wf)
+        if wf == "error" and case["strategy"] == "merge" and set(case["force"]) & set(["frame", "strand"]):
+            # the unchanged tree announces force_merge_fields naming frame / strand with a UserWarning of its own, before
+            # anything is imported: that one notice stays un-escalated
+            warnings.filterwarnings("ignore", message=FORCE_NOTICE, category=UserWarning)
+            ctx.mon("filter 'error': notice about frame / strand in force_merge_fields left un-escalated")
+        store = execute_plain(ctx, case)
+    if store is not None and store is not True:
+        ctx.mon("histories run while the process-wide warning filter is %r" % wf)
+        ctx.mon("histories run while the process-wide warning filter is %r: strategy=%s" % (wf, case["strategy"]))
+        if "ignored" in store.log:
+            ctx.mon("warning filter %r: strategy 'warning' ignored a later arrival and the import went on" % wf)
+            if store.log.index("ignored") < len(store.log) - 1:
+                ctx.mon("warning filter %r: arrivals imported after the ignored one" % wf)
+            if len(case["batches"]) > 1:
+                ctx.mon("warning filter %r: strategy 'warning' over create_db + update()" % wf)
+    return store
+
+
+def execute_plain(ctx, case):
     if case["kind"] == "badforce":
         return execute_badforce(ctx, case)
     if case["kind"] == "locked":
@@ -831,6 +881,9 @@ def account(ctx, case, store):
         ctx.classes["repeated lines: fmt=%s path=%s" % (case["fmt"], "create" if nb == 1 else "create+update")] += 1
     if "verbose" in case:
         ctx.classes["verbose=%r: strategy=%s" % (case["verbose"], case["strategy"])] += 1
+    if case.get("wfilter"):
+        ctx.classes["warning filter %r: strategy=%s" % (case["wfilter"], case["strategy"])] += 1
+        ctx.classes["warning filter %r: fmt=%s path=%s" % (case["wfilter"], case["fmt"], "create" if nb == 1 else "create+update")] += 1
     if case["kind"] == "locked":
         ctx.classes["transient lock during update(): strategy=" + case["strategy"]] += 1
     for m in set(case.get("modes") or ()):
@@ -849,7 +902,8 @@ def account(ctx, case, store):
     ctx.case((case["strategy"], case["fmt"], case["force"] if noncanonical(case) else sorted(case["force"]), nb,
               case.get("pattern"), case.get("gtfkeys"), case.get("opts"), len(runs), repr(case.get("verbose")),
               case.get("modes"), [[bool(p) for p in bl] for bl in case.get("built") or []], case["kind"],
-              str(case.get("repeats")), [len(b) for b in case["batches"]] if case.get("repeats") else None),
+              str(case.get("repeats")), [len(b) for b in case["batches"]] if case.get("repeats") else None,
+              case.get("wfilter")),
              many or case["kind"] == "locked" or bool(case.get("repeats")),
              sample={"strategy": case["strategy"], "force": case["force"], "fmt": case["fmt"], "arrivals": store.log,
                      "verbose": case.get("verbose", "not given"),
@@ -966,6 +1020,27 @@ def run(ctx):
         o = draw_opts(rng, fmt)
         case = G.gen_verbatim(rng, fmt, strategy, force, opts=o, inner=True if i % 4 == 0 else None)
         account(ctx, case, execute(ctx, case))
+    # 2i. the same history while the process-wide warning filter is 'error' / 'ignore' / 'default': same outcome
+    for i in range(ctx.budget(330, 7000)):
+        strategy = "warning" if i % 2 == 0 else rng.choice(M.STRATEGIES)
+        force = rng.choice(M.subsets()) if strategy == "merge" else []
+        fmt = rng.choice(["gff3", "gtf"])
+        o = draw_opts(rng, fmt)
+        r = rng.random()
+        if r < 0.25 and strategy != "error":
+            base = G.gen_multirun(rng, fmt, strategy, force, opts=o)
+        elif r < 0.4:
+            base = G.gen_verbatim(rng, fmt, strategy, force, opts=o)
+        else:
+            base = G.gen_history(rng, fmt, strategy, force, rng.choice(["create", "update"]), opts=o)
+        done = 0
+        for wf in WFILTERS:
+            case = dict(base, wfilter=wf)
+            st = execute(ctx, case)
+            account(ctx, case, st)
+            done += st is not None
+        if done == 3:
+            ctx.mon("one history run under the warning filters 'error' / 'ignore' / 'default' (each judged against the model)")
     # 2g. a transient lock held by another connection while update() inserts; nothing collides.  Quick: one case on the
     #     last shard; thorough: every strategy, one per shard
     if ctx.tier == "quick":
